@@ -204,6 +204,39 @@ def target_candidates(mspec):
     return [n for n in out if not n.endswith("_filter")]
 
 
+def probe_cases():
+    """Fixed simulate inputs in the territory of C12's known findings (lcm raises there on the unchanged tree, which is
+    reported by C12's own check and counted as outside here).  If a change makes lcm return a panel instead, every row is
+    judged like any other: a silent wrong answer in place of the error is a violation of the simulation properties."""
+    from fractions import Fraction as F
+    X = G.X
+    out = []
+
+    def case(mspec, params, initial_states, targets=None, tag=""):
+        return {"fn": "simulate", "model": G.model_json(mspec, q), "params": G.params_json(params, q),
+                "py": G.render_python(mspec), "_mspec": mspec, "_params": params, "_force": ["probe:" + tag],
+                "_probe": {"initial_states": initial_states, "targets": targets}}
+
+    # (1) agents whose filter-restricted state has no filter-passing choice (s = 0), in several positions of the batch
+    m1 = {"n_periods": 2, "states": [["s", {"d": 3}]], "choices": [["c", {"d": 2}]],
+          "functions": [{"name": "utility", "args": ["s", "c"], "body": ["+", ["+", X.v("s"), X.v("c")], X.c(F(1, 2))], "stochastic": False},
+                        {"name": "next_s", "args": ["s"], "body": X.v("s"), "stochastic": False},
+                        {"name": "ok_filter", "args": ["s", "c"], "body": ["and", ["<=", X.c(1), X.v("s")], ["<=", X.v("c"), X.v("s")]], "stochastic": False}]}
+    p1 = {"beta": F(1), "fpar": {"utility": {}, "next_s": {}, "ok_filter": {}}, "shocks": {}}
+    for init in ([0, 1, 2, 0], [0, 0, 1, 2], [2, 0, 1, 0, 0, 1]):
+        out.append(case(m1, p1, [["s", [q(F(x)) for x in init]]], tag="no_admissible_restricted_choice"))
+    # (2) no crash here: the filter removes the FIRST restricted-choice combination (the one the utility prefers) in most
+    #     states; every agent keeps an admissible choice.  A data space that keeps or re-adds a rejected combination, or that
+    #     mixes up the rows of different agents, reports an inadmissible choice or a wrong value.
+    m2 = {"n_periods": 2, "states": [["s", {"d": 3}]], "choices": [["c", {"d": 2}]],
+          "functions": [{"name": "utility", "args": ["s", "c"], "body": ["+", ["-", X.v("s"), X.v("c")], X.c(F(1, 2))], "stochastic": False},
+                        {"name": "next_s", "args": ["s"], "body": X.v("s"), "stochastic": False},
+                        {"name": "ok_filter", "args": ["s", "c"], "body": ["or", ["<=", X.c(1), X.v("c")], ["<=", X.c(2), X.v("s")]], "stochastic": False}]}
+    for init in ([0, 1, 0, 1], [0, 0, 1, 1, 2, 0], [1, 2, 0]):
+        out.append(case(m2, p1, [["s", [q(F(x)) for x in init]]], tag="first_combination_rejected"))
+    return out
+
+
 def fam_simulate(rng, n, *, name="simulate_vs_spec", max_periods=3, agents=(1, 6), judge=("C02", "C03", "C06", "C13"),
                  features=None, targets=True, on_grid_prob=0.3):
     """lcm solve_and_simulate on random models; every panel row judged by the Spec's row oracle.
@@ -217,9 +250,18 @@ def fam_simulate(rng, n, *, name="simulate_vs_spec", max_periods=3, agents=(1, 6
     # simulations: filters restrict choices only, so that no agent can reach a state without a
     # filter-passing choice (that crashes the whole batch: C12 known finding)
     cases = gen_cases(rng, n, fn="simulate", max_periods=max_periods, features=features, allow_state_exclusion=False)
+    cases += probe_cases()           # fixed inputs on which lcm is known to raise (C12 findings); judged if it ever returns
     wcases = []
     for c in cases:
         m = c["_mspec"]
+        if "_probe" in c:            # no random draws: the stream of the generated cases is unchanged
+            w = wire(c)
+            w.update(initial_states=c["_probe"]["initial_states"], int_arrays=False, seed=0, with_solution=True, jit=True)
+            if c["_probe"].get("targets"):
+                w["additional_targets"] = c["_probe"]["targets"]
+            w["_n_agents"] = len(c["_probe"]["initial_states"][0][1])
+            wcases.append(w)
+            continue
         na = rng.randint(*agents)
         w = wire(c)
         integral = rng.random() < 0.25
@@ -262,6 +304,8 @@ def fam_simulate(rng, n, *, name="simulate_vs_spec", max_periods=3, agents=(1, 6
                 fam.bump("with_" + key)
         if r is None:
             kc = known_crash(i.get("detail"))
+            if kc is None and "_probe" in c:
+                kc = c["_force"][0]          # a probe in the territory of a C12 finding: that lcm raises is that finding
             item = {"tag": "C12", "case": slim(w), "impl": i, "known_crash": kc,
                     "what": "lcm raised while simulating a generated model: " + str(i.get("detail"))[:200]}
             if kc and "C12" not in judge:
